@@ -22,6 +22,12 @@ def run(ctx):
     gb = life.gen(ctx, gen, 3 if q else 4, "all histories over generic instantiations incl. kept handles")
     gb += life.sim(ctx, dict(gen, B='{"b1", "b2"}', T='{"f", "g", "h"}', CB='{"c1", "c2"}'), 100 if q else 2000, 12, "random histories over generic instantiations")
     life.replay(ctx, "life-generic", gb)
+    # one builder holding a function mock, a variable mock and an interface mock at once (Mix.tla)
+    mb = ctx.behaviours(ctx.tlc("Mix", "Gen_Mix.cfg", workers=1, timeout=900, constants={"MaxOps": 4 if q else 5}, tag="mixed builder: all histories"))
+    mb = [b for b in mb if len({s.get("fam") for s in b} - {"all", None}) >= 2 and any(s["op"] == "Reset" for s in b)]
+    mb += ctx.behaviours(ctx.tlc("Mix", "Sim_Mix.cfg", workers=1, timeout=900, simulate="num=%d" % (200 if q else 3000), depth=15, tag="mixed builder: random histories"))
+    from lib.replay import replay_family
+    replay_family(ctx, "mix", mb, env={"GODEBUG": "clobberfree=1"}, classify=life.classify)
     ctx.cov["exhaustive"] = True
     ctx.cov["rule"] = ("every history over {Apply, Origin+Apply, Return, When, Cancel, Reset} to the stated depth for one "
                        "builder and for two builders sharing both targets, plus seeded random length-12 histories; after "
